@@ -313,6 +313,8 @@ type Op struct {
 	Data   []byte // Save
 	Length int
 	Offset int64
+	// DeadOnArrival: the caller's context was already cancelled when the request was issued (Save, Remove)
+	DeadOnArrival bool
 }
 
 // Backend is a backend.Backend over a Store whose operations are explorer gates.
@@ -464,7 +466,7 @@ func (b *Backend) Save(ctx context.Context, h backend.Handle, rd backend.RewindR
 	b.S.mu.Lock()
 	sem := b.S.nameLocked(k, buf)
 	b.S.mu.Unlock()
-	op := &Op{Proc: b.Proc, Kind: "Save", Key: k, Sem: sem, Data: buf}
+	op := &Op{Proc: b.Proc, Kind: "Save", Key: k, Sem: sem, Data: buf, DeadOnArrival: ctx.Err() != nil}
 	mut := Mut{Key: k, Data: buf, Proc: b.Proc, Sem: sem}
 	ans := b.gate(op, true, &mut)
 	switch ans {
@@ -515,7 +517,7 @@ func (b *Backend) Save(ctx context.Context, h backend.Handle, rd backend.RewindR
 func (b *Backend) Remove(ctx context.Context, h backend.Handle) error {
 	k := norm(h)
 	sem := b.S.SemName(k)
-	op := &Op{Proc: b.Proc, Kind: "Remove", Key: k, Sem: sem}
+	op := &Op{Proc: b.Proc, Kind: "Remove", Key: k, Sem: sem, DeadOnArrival: ctx.Err() != nil}
 	mut := Mut{Remove: true, Key: k, Proc: b.Proc, Sem: sem}
 	ans := b.gate(op, true, &mut)
 	switch ans {
